@@ -285,6 +285,8 @@ func (r *Runner) exec(ctx boltz.MutateContext, s *Step, salt int) (ret string, e
 			if tagVeto {
 				e.Tags = unstorableTags()
 			}
+			// (an entity marked as being migrated keeps its time stamps; the mark says nothing about the system flag)
+			e.Migrate = s.op() == "update" && salt%2 == 0
 			if s.op() == "create" {
 				err = S.Staff.Create(ctx, e)
 			} else {
@@ -299,6 +301,7 @@ func (r *Runner) exec(ctx boltz.MutateContext, s *Step, salt int) (ret string, e
 			if tagVeto {
 				e.Tags = unstorableTags()
 			}
+			e.Migrate = s.op() == "update" && salt%2 == 0
 			if s.op() == "create" {
 				err = S.People.Create(ctx, e)
 			} else {
@@ -307,6 +310,14 @@ func (r *Runner) exec(ctx boltz.MutateContext, s *Step, salt int) (ret string, e
 			scribble(e)
 		}
 	case "delete":
+		if salt%4 == 1 && S.Staff.IsEntityPresent(tx, id) {
+			// nothing in the library keeps an entity from having data in two child stores: give this one data in the (otherwise
+			// empty) child store that is registered first -- the delete has to clean up in every child store all the same
+			// (child data lives inside the parent's entity bucket, below the child store's path)
+			if eb := S.People.GetEntityBucket(tx, []byte(id)); eb != nil {
+				eb.GetOrCreatePath("intern").SetString("grade", "second-child-store", nil)
+			}
+		}
 		if str(a["via"]) == "staff" {
 			err = S.Staff.DeleteById(ctx, id)
 		} else {
@@ -500,19 +511,35 @@ func (r *Runner) Run(steps []Step) bool {
 					if k == 0 && actRegistered {
 						continue
 					}
-					ctx.AddCommitAction(env.commitAction)
+					// registered on the transaction's context, or on what UpdateContext / GetSystemContext hand back for it: one transaction
+					switch (at + r.Idx) % 3 {
+					case 0:
+						ctx.AddCommitAction(env.commitAction)
+					case 1:
+						ctx.UpdateContext(func(c context.Context) context.Context { return context.WithValue(c, ctxKey{}, at) }).AddCommitAction(env.commitAction)
+					default:
+						ctx.GetSystemContext().AddCommitAction(env.commitAction)
+					}
 					continue
 				case "preCommit":
 					if k == 0 && preRegistered {
 						continue
 					}
 					fail := str(s.args()["outcome"]) == "fail"
-					ctx.AddPreCommitAction(func(boltz.MutateContext) error {
+					pre := func(boltz.MutateContext) error {
 						if fail {
 							return ErrPre
 						}
 						return nil
-					})
+					}
+					switch (at + r.Idx) % 3 {
+					case 0:
+						ctx.AddPreCommitAction(pre)
+					case 1:
+						ctx.GetSystemContext().AddPreCommitAction(pre)
+					default:
+						ctx.UpdateContext(func(c context.Context) context.Context { return context.WithValue(c, ctxKey{}, at) }).AddPreCommitAction(pre)
+					}
 					continue
 				case "callerError":
 					opErr = ErrCaller
